@@ -246,7 +246,27 @@ def render(doc, override=None):
   bodies = [i for i, nd in enumerate(N, 1) if nd["kind"] == "body"]
   for b in bodies:
     build(tt, b)
+  if doc.get("spell"):
+    _respell_colours(tt, doc["spell"], override[1:] if override else None)
   return et.ElementTree(tt)
+
+
+_SPELL_RGB = {"red": (255, 0, 0), "green": (0, 128, 0), "blue": (0, 0, 255), "yellow": (255, 255, 0), "white": (255, 255, 255),
+              "black": (0, 0, 0)}
+
+
+def _respell_colours(root, spell, keep):
+  """Write named colours in the other spellings of TTML2 <color> (#rrggbb, #RRGGBBAA, rgb(), rgba()): same value, so the
+  abstract document is unchanged.  `spell` selects the rotation; the one overridden (corrupted) attribute is left alone."""
+  n = spell
+  for el in root.iter():
+    for name in (style_qn("color"), style_qn("backgroundColor")):
+      v = el.get(name)
+      if v in _SPELL_RGB and not (keep and keep[0] == name and keep[1] == v):
+        r, g, b = _SPELL_RGB[v]
+        n += 1
+        el.set(name, [v, "#%02x%02x%02x" % (r, g, b), "#%02X%02X%02XFF" % (r, g, b), "rgb(%d,%d,%d)" % (r, g, b),
+                      "rgba(%d,%d,%d,255)" % (r, g, b)][n % 5])
 
 
 def reparse(tree):
